@@ -1,2 +1,1172 @@
-(* Proofs for C06. *)
-From WI Require Import Lib.Base Lib.Info Model.Containers.
+(* Proofs for C06: multi-entry containers list every entry, in order. *)
+From WI Require Import Lib.Base Lib.Info Lib.Strings Lib.Time Model.Containers.
+From Coq Require Import ZifyN ZifyNat ZifyBool.
+Open Scope N_scope.
+
+(* ====================================================================== *)
+(* Part A.  White space, comments, line splitting                          *)
+
+(* characters a blank line may consist of (no LF; CR is allowed: stray CRs, CRLF files) *)
+Definition blank_char (c : N) : bool := (c =? 9) || (c =? 11) || (c =? 12) || (c =? 32).
+Definition blank_ok (w : bytes) : bool := forallb (fun c => blank_char c || (c =? 13)) w.
+Definition no_lf (l : bytes) : bool := forallb (fun c => negb (c =? 10)) l.
+(* a visible ASCII character other than '#' *)
+Definition graphic (x : N) : bool := (33 <=? x) && (x <? 127).
+(* an entry line: starts with a visible character that is not '#', has no LF and no CR *)
+Definition entry_ok (l : bytes) : bool :=
+  match l with
+  | x :: _ => graphic x && negb (x =? 35)
+  | [] => false
+  end && forallb (fun c => negb (c =? 10) && negb (c =? 13)) l.
+Definition item_ok (it : item) : bool :=
+  match it with
+  | IEntry l => entry_ok l
+  | IBlank w => blank_ok w
+  | IComment w t => forallb blank_char w && no_lf t
+  end.
+Definition layout_ok (its : list item) : bool := forallb item_ok its.
+
+Lemma blank_char_sp1 : forall c, blank_char c = true -> is_sp1 c = true.
+Proof. intros c. unfold blank_char, is_sp1. lia. Qed.
+
+Lemma trim_left_all_sp : forall l, forallb is_sp1 l = true -> trim_left_sp l = [].
+Proof.
+  induction l as [|a l IH]; cbn [forallb trim_left_sp]; [reflexivity|].
+  intros H. apply andb_prop in H as [Ha Hl]. rewrite Ha. auto.
+Qed.
+
+Lemma trim_space_all_sp : forall l, forallb is_sp1 l = true -> trim_space l = [].
+Proof. intros l H. unfold trim_space. now rewrite trim_left_all_sp. Qed.
+
+Lemma cut_blank : forall w, blank_ok w = true -> forallb is_sp1 (cut_at 13 w) = true.
+Proof.
+  induction w as [|c w IH]; cbn [blank_ok forallb cut_at]; [reflexivity|].
+  intros H. apply andb_prop in H as [Hc Hw].
+  destruct (c =? 13) eqn:E; [reflexivity|].
+  cbn [forallb]. rewrite IH by exact Hw. rewrite orb_false_r in Hc.
+  now rewrite (blank_char_sp1 _ Hc).
+Qed.
+
+Lemma blank_ok_app_cr : forall w, blank_ok w = true -> blank_ok (w ++ [13]) = true.
+Proof.
+  intros w H. unfold blank_ok in *. rewrite forallb_app, H. reflexivity.
+Qed.
+
+Lemma skip_blank : forall w, blank_ok w = true -> ssh_skip w = true.
+Proof.
+  intros w H. unfold ssh_skip. now rewrite trim_space_all_sp by (now apply cut_blank).
+Qed.
+
+(* a visible first byte survives trimming on both sides *)
+Lemma graphic_not_sp : forall x, graphic x = true ->
+  is_sp1 x = false /\ (forall b, is_sp2 x b = false) /\ (forall b c, is_sp3 x b c = false)
+  /\ (forall c, is_sp2 x c = false) /\ (forall a c, is_sp3 a x c = false) /\ (forall a b, is_sp3 a b x = false)
+  /\ (forall b, is_sp2 b x = false).
+Proof.
+  intros x H. unfold graphic in H. unfold is_sp1, is_sp2, is_sp3. repeat split; intros; lia.
+Qed.
+
+Lemma trim_left_keeps : forall x t, graphic x = true -> trim_left_sp (x :: t) = x :: t.
+Proof.
+  intros x t H. destruct (graphic_not_sp x H) as (H1 & H2 & H3 & _).
+  cbn [trim_left_sp]. rewrite H1.
+  destruct t as [|b [|c r]]; [reflexivity| |]; rewrite H2; [reflexivity|]. now rewrite H3.
+Qed.
+
+Lemma trim_rev_keeps_n : forall x, graphic x = true -> forall n u, (length u <= n)%nat ->
+  exists s, trim_left_rev (u ++ [x]) = s ++ [x].
+Proof.
+  intros x H. destruct (graphic_not_sp x H) as (H1 & H2 & H3 & _).
+  induction n as [|n IH]; intros u Hn.
+  - destruct u; [|cbn in Hn; lia]. exists []. cbn [app trim_left_rev]. now rewrite H1.
+  - destruct u as [|c r1].
+    + exists []. cbn [app trim_left_rev]. now rewrite H1.
+    + cbn [app trim_left_rev]. cbn [length] in Hn.
+      destruct (is_sp1 c); [apply IH; lia|].
+      destruct r1 as [|b r2]; cbn [app].
+      * rewrite H2. exists [c]. reflexivity.
+      * cbn [length] in Hn. destruct (is_sp2 b c); [apply IH; lia|].
+        destruct r2 as [|a r3]; cbn [app].
+        -- rewrite H3. exists [c; b]. reflexivity.
+        -- cbn [length] in Hn. destruct (is_sp3 a b c); [apply IH; lia|].
+           exists (c :: b :: a :: r3). reflexivity.
+Qed.
+
+Lemma trim_space_head : forall x t, graphic x = true -> exists t', trim_space (x :: t) = x :: t'.
+Proof.
+  intros x t H. unfold trim_space. rewrite trim_left_keeps by exact H.
+  cbn [rev]. destruct (trim_rev_keeps_n x H (length (rev t)) (rev t) (le_n _)) as [s Hs].
+  rewrite Hs, rev_app_distr. cbn [rev app]. eauto.
+Qed.
+
+Lemma cut_at_app_stop : forall w x t, forallb blank_char w = true ->
+  cut_at 13 (w ++ x :: t) = w ++ cut_at 13 (x :: t).
+Proof.
+  induction w as [|c w IH]; intros x t H; [reflexivity|].
+  cbn [forallb] in H. apply andb_prop in H as [Hc Hw].
+  cbn [app cut_at]. assert (c =? 13 = false) as -> by (unfold blank_char in Hc; lia).
+  now rewrite IH.
+Qed.
+
+Lemma trim_left_skip_ws : forall w l, forallb blank_char w = true -> trim_left_sp (w ++ l) = trim_left_sp l.
+Proof.
+  induction w as [|c w IH]; intros l H; [reflexivity|].
+  cbn [forallb] in H. apply andb_prop in H as [Hc Hw].
+  cbn [app trim_left_sp]. rewrite (blank_char_sp1 _ Hc). now apply IH.
+Qed.
+
+Lemma skip_comment : forall w t, forallb blank_char w = true -> ssh_skip (w ++ 35 :: t) = true.
+Proof.
+  intros w t Hw. unfold ssh_skip. rewrite cut_at_app_stop by exact Hw.
+  cbn [cut_at]. change (35 =? 13) with false. cbv iota.
+  unfold trim_space. rewrite trim_left_skip_ws by exact Hw.
+  fold (trim_space (35 :: cut_at 13 t)).
+  destruct (trim_space_head 35 (cut_at 13 t) eq_refl) as [t' ->]. reflexivity.
+Qed.
+
+Lemma cut_at_none : forall l, forallb (fun c => negb (c =? 10) && negb (c =? 13)) l = true ->
+  cut_at 13 l = l /\ cut_at 13 (l ++ [13]) = l.
+Proof.
+  induction l as [|c l IH]; cbn [forallb app cut_at]; intros H.
+  - split; reflexivity.
+  - apply andb_prop in H as [Hc Hl]. assert (c =? 13 = false) as -> by lia.
+    destruct (IH Hl) as [-> ->]. split; reflexivity.
+Qed.
+
+Lemma skip_entry : forall e, entry_ok e = true -> ssh_skip e = false /\ ssh_skip (e ++ [13]) = false.
+Proof.
+  intros e H. unfold entry_ok in H. apply andb_prop in H as [Hh Hall].
+  destruct (cut_at_none e Hall) as [C1 C2]. unfold ssh_skip. rewrite C1, C2.
+  destruct e as [|x t]; [discriminate|]. apply andb_prop in Hh as [Hg Hx].
+  destruct (trim_space_head x t Hg) as [t' ->]. split; lia.
+Qed.
+
+(* --- bytes.Split on LF --- *)
+Lemma split_lf_nonempty : forall l, exists h t, split_lf l = h :: t.
+Proof.
+  induction l as [|c l [h [t IH]]]; cbn [split_lf]; [eauto|].
+  rewrite IH. destruct (c =? 10); eauto.
+Qed.
+
+Lemma split_lf_line : forall l rest, no_lf l = true -> split_lf (l ++ 10 :: rest) = l :: split_lf rest.
+Proof.
+  induction l as [|c l IH]; intros rest H; cbn [app split_lf].
+  - destruct (split_lf_nonempty rest) as [h [t ->]]. reflexivity.
+  - cbn [no_lf forallb] in H. apply andb_prop in H as [Hc Hl]. rewrite (IH rest Hl).
+    assert (c =? 10 = false) as -> by lia. reflexivity.
+Qed.
+
+Lemma split_lf_last : forall l, no_lf l = true -> split_lf l = [l].
+Proof.
+  induction l as [|c l IH]; intros H; cbn [split_lf]; [reflexivity|].
+  cbn [no_lf forallb] in H. apply andb_prop in H as [Hc Hl]. rewrite (IH Hl).
+  assert (c =? 10 = false) as -> by lia. reflexivity.
+Qed.
+
+(* ====================================================================== *)
+(* Part B.  SSH files: every layout                                        *)
+
+Definition cr (le : line_ending) : bytes := match le with LF => [] | CRLF => [13] end.
+
+Lemma no_lf_app_cr : forall l le, no_lf l = true -> no_lf (l ++ cr le) = true.
+Proof. intros l le H. unfold no_lf in *. rewrite forallb_app, H. now destruct le. Qed.
+
+Lemma split_step : forall l le rest, no_lf l = true ->
+  split_lf (l ++ le_bytes le ++ rest) = (l ++ cr le) :: split_lf rest.
+Proof.
+  intros l le rest H. pose proof (split_lf_line (l ++ cr le) rest (no_lf_app_cr l le H)) as E.
+  transitivity (split_lf ((l ++ cr le) ++ 10 :: rest)); [|exact E]. f_equal. destruct le; cbn [le_bytes cr app]; rewrite <- app_assoc; reflexivity.
+Qed.
+
+Lemma item_no_lf : forall it, item_ok it = true -> no_lf (item_line it) = true.
+Proof.
+  intros [l|w|w t]; cbn [item_ok item_line]; intros H.
+  - unfold entry_ok in H. apply andb_prop in H as [_ H]. unfold no_lf.
+    rewrite forallb_forall in *. intros c Hc. specialize (H c Hc). lia.
+  - unfold blank_ok in H. unfold no_lf. rewrite forallb_forall in *. intros c Hc. specialize (H c Hc).
+    unfold blank_char in H. lia.
+  - apply andb_prop in H as [Hw Ht]. unfold no_lf in *. rewrite forallb_app. cbn [forallb].
+    rewrite Ht, andb_true_r. rewrite forallb_forall in *. intros c Hc. specialize (Hw c Hc).
+    unfold blank_char in Hw. lia.
+Qed.
+
+(* the attributes the library reports for a line (meaningful where it answers Ok) *)
+Definition lib_attrs (lib : bytes -> result attrs) (e : bytes) : attrs :=
+  match lib e with Ok a => a | _ => [] end.
+Definition ssh_child (lib : bytes -> result attrs) (e : bytes) : info := Info ssh_key_desc (lib_attrs lib e) [].
+
+Section SshLayout.
+  Variable lib : bytes -> result attrs.
+  (* the library accepts the line, and a CR at its end makes no difference (it cuts at CR) *)
+  Definition lib_accepts (e : bytes) : Prop := exists a, lib e = Ok a /\ lib (e ++ [13]) = Ok a.
+
+  (* one written line, with or without the CR of a CRLF ending *)
+  Lemma line_step : forall it le rest, item_ok it = true ->
+    (forall e, it = IEntry e -> lib_accepts e) ->
+    ssh_lines ssh_skip lib ((item_line it ++ cr le) :: rest) =
+      match ssh_lines ssh_skip lib rest with
+      | Ok k => Ok (map (ssh_child lib) (entries_of [it]) ++ k)
+      | Err e => Err e
+      | Panic e => Panic e
+      end.
+  Proof.
+    intros it le rest Hok Hlib. cbn [ssh_lines].
+    destruct it as [l|w|w t]; cbn [item_ok item_line entries_of map app] in *.
+    - destruct (skip_entry l Hok) as [S1 S2].
+      destruct (Hlib l eq_refl) as [a [L1 L2]].
+      assert (ssh_skip (l ++ cr le) = false /\ lib (l ++ cr le) = Ok a) as [-> ->].
+      { destruct le; cbn [cr]; [rewrite app_nil_r|]; auto. }
+      unfold ssh_child, lib_attrs. rewrite L1. reflexivity.
+    - assert (ssh_skip (w ++ cr le) = true) as ->.
+      { destruct le; cbn [cr]; [rewrite app_nil_r; now apply skip_blank|].
+        apply skip_blank. now apply blank_ok_app_cr. }
+      destruct (ssh_lines ssh_skip lib rest); reflexivity.
+    - apply andb_prop in Hok as [Hw Ht].
+      assert (ssh_skip ((w ++ 35 :: t) ++ cr le) = true) as ->.
+      { rewrite <- app_assoc. cbn [app]. now apply skip_comment. }
+      destruct (ssh_lines ssh_skip lib rest); reflexivity.
+  Qed.
+
+  (* the line endings after the last line add nothing *)
+  Lemma tail_lines : forall le k,
+    ssh_lines ssh_skip lib (split_lf (concat (repeat (le_bytes le) k))) = Ok [].
+  Proof.
+    intros le. induction k as [|k IH]; cbn [repeat concat].
+    - reflexivity.
+    - change (le_bytes le ++ concat (repeat (le_bytes le) k))
+        with ([] ++ le_bytes le ++ concat (repeat (le_bytes le) k)).
+      rewrite split_step by reflexivity. cbn [app ssh_lines].
+      assert (ssh_skip (cr le) = true) as -> by (destruct le; reflexivity).
+      exact IH.
+  Qed.
+
+  Lemma ssh_layout_lines : forall its le trail,
+    layout_ok its = true ->
+    (forall e, In e (entries_of its) -> lib_accepts e) ->
+    ssh_lines ssh_skip lib (split_lf (render its le trail)) = Ok (map (ssh_child lib) (entries_of its)).
+  Proof.
+    induction its as [|it its IH]; intros le trail Hok Hlib.
+    - reflexivity.
+    - cbn [layout_ok forallb] in Hok. apply andb_prop in Hok as [Hit Hits].
+      assert (Hl : forall e, it = IEntry e -> lib_accepts e).
+      { intros e ->. apply Hlib. now left. }
+      assert (Hr : forall e, In e (entries_of its) -> lib_accepts e).
+      { intros e He. apply Hlib. destruct it; cbn [entries_of]; auto. now right. }
+      assert (Hent : entries_of (it :: its) = entries_of [it] ++ entries_of its).
+      { destruct it; reflexivity. }
+      unfold render. cbn [map render_lines]. destruct its as [|it2 its'].
+      + (* the last line *)
+        cbn [map]. destruct trail as [|k].
+        * cbn [repeat concat]. rewrite app_nil_r.
+          rewrite split_lf_last by (now apply item_no_lf).
+          rewrite <- (app_nil_r (item_line it)) at 1. change [] with (cr LF) at 1.
+          rewrite line_step by assumption. cbn [ssh_lines]. rewrite app_nil_r.
+          rewrite Hent. cbn [entries_of]. now rewrite app_nil_r.
+        * cbn [repeat concat]. rewrite split_step by (now apply item_no_lf).
+          rewrite line_step by assumption. rewrite tail_lines. rewrite app_nil_r.
+          rewrite Hent. cbn [entries_of]. now rewrite app_nil_r.
+      + cbn [map]. rewrite split_step by (now apply item_no_lf).
+        rewrite line_step by assumption.
+        change (render_lines (item_line it2 :: map item_line its') le trail) with (render (it2 :: its') le trail).
+        rewrite (IH le trail Hits Hr). rewrite Hent, map_app. reflexivity.
+  Qed.
+
+  Lemma ssh_layout_file : forall desc its le trail,
+    layout_ok its = true ->
+    (forall e, In e (entries_of its) -> lib_accepts e) ->
+    ssh_file ssh_skip lib desc (render its le trail) = Ok (Info desc [] (map (ssh_child lib) (entries_of its))).
+  Proof.
+    intros. unfold ssh_file. now rewrite ssh_layout_lines.
+  Qed.
+End SshLayout.
+
+(* a line the library rejects fails the whole file: nothing is listed partially *)
+Lemma ssh_bad_line : forall skip lib ls l,
+  In l ls -> skip l = false -> (exists e, lib l = Err e) ->
+  (forall l', In l' ls -> is_panic (lib l') = false) ->
+  exists e, ssh_lines skip lib ls = Err e.
+Proof.
+  induction ls as [|x ls IH]; intros l Hin Hs [e He] Hnp; [destruct Hin|].
+  cbn [ssh_lines]. destruct Hin as [->|Hin].
+  - rewrite Hs, He. eauto.
+  - assert (Hrec : exists e', ssh_lines skip lib ls = Err e').
+    { apply (IH l); eauto. intros l' Hl'. apply Hnp. now right. }
+    destruct Hrec as [e' He']. destruct (skip x); [eauto|].
+    pose proof (Hnp x (or_introl eq_refl)) as Hx.
+    destruct (lib x); cbn in Hx; [rewrite He'|..]; eauto. discriminate.
+Qed.
+
+(* the pre-repair code on a concrete file: a stand-in library that, like x/crypto/ssh,
+   rejects blank and comment chunks and ignores a CR and what follows *)
+Definition toy_lib (l : bytes) : result attrs :=
+  if ssh_skip l then Err "ssh: no key found" else Ok [(bs "Key", cut_at 13 l)].
+Definition toy_k1 : bytes := bs "ssh-ed25519 AAAAC3NzaC1lZDI1NTE5 one".
+Definition toy_k2 : bytes := bs "ssh-rsa AAAAB3NzaC1yc2E two".
+
+(* ====================================================================== *)
+(* Part C.  PEM bundles                                                    *)
+
+Lemma prefix_of_app : forall p t, prefix_of p (p ++ t) = true.
+Proof. induction p as [|x p IH]; intros t; cbn [app prefix_of]; [reflexivity|]. now rewrite N.eqb_refl, IH. Qed.
+
+Lemma prefix_of_split : forall p l, prefix_of p l = true -> exists t, l = p ++ t.
+Proof.
+  induction p as [|x p IH]; intros l H; [now exists l|].
+  destruct l as [|y l]; [discriminate|]. cbn [prefix_of] in H. apply andb_prop in H as [Hx Hp].
+  apply N.eqb_eq in Hx. subst y. destruct (IH l Hp) as [t ->]. now exists t.
+Qed.
+
+(* p is a prefix of l ++ t and no longer than l: it is a prefix of l *)
+Lemma prefix_of_app_short : forall p l t, (length p <= length l)%nat ->
+  prefix_of p (l ++ t) = prefix_of p l.
+Proof.
+  induction p as [|x p IH]; intros l t H; [reflexivity|].
+  destruct l as [|y l]; [cbn in H; lia|]. cbn [app prefix_of]. rewrite IH by (cbn in H; lia). reflexivity.
+Qed.
+
+Lemma index_from_shift : forall sep l k, index_from (S k) sep l = option_map S (index_from k sep l).
+Proof.
+  induction l as [|x l IH]; intros k; cbn [index_from].
+  - destruct (prefix_of sep []); reflexivity.
+  - destruct (prefix_of sep (x :: l)); [reflexivity|apply IH].
+Qed.
+
+(* text that does not bring a "-----BEGIN " of its own, even together with the start of the
+   block that follows: the first occurrence in j ++ "-----BEGIN " is at the end of j *)
+Definition junk_ok (j : bytes) : bool :=
+  match index_of pem_begin (j ++ pem_begin) with
+  | Some k => Nat.eqb k (length j)
+  | None => false
+  end.
+Definition junk_end (j : bytes) : bool :=
+  match index_of pem_begin j with Some _ => false | None => true end.
+
+Lemma index_from_here : forall p l k, prefix_of p l = true -> index_from k p l = Some k.
+Proof. intros p l k H. destruct l; cbn [index_from]; rewrite H; reflexivity. Qed.
+
+Lemma index_junk : forall p j t, index_of p (j ++ p) = Some (length j) -> index_of p (j ++ p ++ t) = Some (length j).
+Proof.
+  intros p. unfold index_of. induction j as [|x j IH]; intros t H.
+  - cbn [app length]. apply index_from_here, prefix_of_app.
+  - cbn [app length] in *. cbn [index_from] in *.
+    destruct (prefix_of p (x :: j ++ p)) eqn:E; [discriminate|].
+    assert (Hp : prefix_of p (x :: j ++ p ++ t) = false).
+    { replace (x :: j ++ p ++ t) with ((x :: j ++ p) ++ t) by (cbn [app]; now rewrite <- app_assoc).
+      rewrite prefix_of_app_short; [exact E|]. cbn [length]. rewrite app_length. lia. }
+    rewrite Hp. rewrite index_from_shift in *.
+    destruct (index_from 0 p (j ++ p)) as [n|] eqn:Ek; [|discriminate].
+    cbn [option_map] in H. injection H as H. subst n.
+    rewrite (IH t eq_refl). reflexivity.
+Qed.
+
+Lemma drop_app_length : forall (A : Type) (a b : list A), drop (length a) (a ++ b) = b.
+Proof. induction a as [|x a IH]; intros b; [reflexivity|apply IH]. Qed.
+Lemma take_app_length : forall (A : Type) (a b : list A), take (length a) (a ++ b) = a.
+Proof. induction a as [|x a IH]; intros b; [reflexivity|]. cbn [length app take]. now rewrite IH. Qed.
+
+Lemma skip_junk : forall j x, junk_ok j = true -> prefix_of pem_begin x = true -> skip_to_pem (j ++ x) = x.
+Proof.
+  intros j x Hj Hx. destruct (prefix_of_split _ _ Hx) as [t ->].
+  unfold junk_ok in Hj. destruct (index_of pem_begin (j ++ pem_begin)) as [k|] eqn:E; [|discriminate].
+  apply Nat.eqb_eq in Hj. subst k.
+  unfold skip_to_pem. rewrite (index_junk _ _ t E). apply drop_app_length.
+Qed.
+
+Lemma skip_end : forall j, junk_end j = true -> skip_to_pem j = [].
+Proof.
+  intros j H. unfold junk_end in H. unfold skip_to_pem. destruct (index_of pem_begin j); [discriminate|reflexivity].
+Qed.
+
+Section PemBundle.
+  Variable enc : pblock -> bytes.                      (* the armor of a block, with its line endings *)
+  Variable dec : bytes -> option (pblock * bytes).     (* pem.Decode *)
+  Variable describe : pblock -> result info.           (* parsePEMBlock *)
+  Variable d : pblock -> info.
+  (* what is assumed of encoding/pem (sampled by the correspondence check on every case):
+     an armored block starts with the BEGIN marker and pem.Decode returns it and what follows it *)
+  Hypothesis enc_begin : forall b, prefix_of pem_begin (enc b) = true.
+  Hypothesis dec_enc : forall b rest, dec (enc b ++ rest) = Some (b, rest).
+
+  (* a bundle: text, block, text, block, ..., text *)
+  Fixpoint pem_render (items : list (bytes * pblock)) (tail : bytes) : bytes :=
+    match items with
+    | [] => tail
+    | (j, b) :: r => j ++ enc b ++ pem_render r tail
+    end.
+  Definition bundle_ok (items : list (bytes * pblock)) (tail : bytes) : bool :=
+    forallb (fun jb => junk_ok (fst jb)) items && junk_end tail.
+  Definition listed (items : list (bytes * pblock)) : list pblock :=
+    filter (fun b => negb (is_pgp_type (pb_type b))) (map snd items).
+
+  Lemma enc_nonempty : forall b rest, exists x r, enc b ++ rest = x :: r.
+  Proof.
+    intros b rest. destruct (prefix_of_split _ _ (enc_begin b)) as [t ->].
+    unfold pem_begin. cbn. eauto.
+  Qed.
+
+  Lemma skip_render : forall items tail, bundle_ok items tail = true ->
+    skip_to_pem (pem_render items tail) =
+      match items with
+      | [] => []
+      | (j, b) :: r => enc b ++ pem_render r tail
+      end.
+  Proof.
+    intros items tail H. unfold bundle_ok in H. apply andb_prop in H as [Hi Ht].
+    destruct items as [|[j b] r]; cbn [pem_render].
+    - now apply skip_end.
+    - cbn [forallb fst] in Hi. apply andb_prop in Hi as [Hj _].
+      apply skip_junk; [exact Hj|].
+      destruct (prefix_of_split _ _ (enc_begin b)) as [t ->]. rewrite <- app_assoc. apply prefix_of_app.
+  Qed.
+
+  Lemma pem_loop_bundle : forall items tail fuel,
+    bundle_ok items tail = true -> (length items < fuel)%nat ->
+    (forall b, In b (listed items) -> describe b = Ok (d b)) ->
+    pem_loop dec describe fuel (skip_to_pem (pem_render items tail)) = Ok (map d (listed items)).
+  Proof.
+    induction items as [|[j b] r IH]; intros tail fuel Hok Hf Hd.
+    - rewrite skip_render by exact Hok. destruct fuel; reflexivity.
+    - rewrite skip_render by exact Hok.
+      destruct fuel as [|f]; [cbn in Hf; lia|].
+      destruct (enc_nonempty b (pem_render r tail)) as [x [rr E]].
+      cbn [pem_loop]. rewrite E. rewrite <- E. rewrite dec_enc.
+      assert (Hok' : bundle_ok r tail = true).
+      { unfold bundle_ok in *. cbn [forallb] in Hok. apply andb_prop in Hok as [Hi Ht].
+        apply andb_prop in Hi as [_ Hi]. now rewrite Hi, Ht. }
+      unfold listed in *. cbn [map snd filter] in *.
+      destruct (is_pgp_type (pb_type b)) eqn:Ep; cbn [negb] in *.
+      + apply IH; [exact Hok'|cbn in Hf; lia|exact Hd].
+      + rewrite (Hd b (or_introl eq_refl)).
+        rewrite IH; [reflexivity|exact Hok'|cbn in Hf; lia|].
+        intros b' Hb'. apply Hd. now right.
+  Qed.
+
+  Lemma render_length : forall items tail, (length items <= length (pem_render items tail))%nat.
+  Proof.
+    induction items as [|[j b] r IH]; intros tail; cbn [length pem_render]; [lia|].
+    destruct (enc_nonempty b []) as [x [rr E]]. rewrite app_nil_r in E.
+    rewrite !app_length, E. cbn [length]. specialize (IH tail). lia.
+  Qed.
+
+  (* PEMFile on every bundle *)
+  Lemma pem_file_bundle : forall items tail,
+    bundle_ok items tail = true ->
+    (forall b, In b (listed items) -> describe b = Ok (d b)) ->
+    pem_file dec describe (pem_render items tail) =
+      match map d (listed items) with
+      | [] => Err "no valid PEM blocks"
+      | [i] => Ok i
+      | k => Ok (Info (bs "multiple PEM blocks") [] k)
+      end.
+  Proof.
+    intros items tail Hok Hd. unfold pem_file.
+    rewrite (pem_loop_bundle items tail _ Hok); [destruct (map d (listed items)) as [|? [|? ?]]; reflexivity| |exact Hd].
+    pose proof (render_length items tail). lia.
+  Qed.
+End PemBundle.
+
+(* ====================================================================== *)
+(* Part D.  Keystores: the stream codec round trip                         *)
+
+Lemma be_acc_app : forall l1 l2 acc, be_to_N_acc acc (l1 ++ l2) = be_to_N_acc (be_to_N_acc acc l1) l2.
+Proof. induction l1 as [|x l1 IH]; intros l2 acc; cbn [app be_to_N_acc]; [reflexivity|apply IH]. Qed.
+
+Lemma N_to_be_length : forall w n, length (N_to_be w n) = w.
+Proof.
+  induction w as [|w IH]; intros n; cbn [N_to_be]; [reflexivity|].
+  rewrite app_length, IH. cbn [length]. lia.
+Qed.
+
+Lemma be_N_to_be_mod : forall w n, be_to_N (N_to_be w n) = n mod 256 ^ N.of_nat w.
+Proof.
+  unfold be_to_N. induction w as [|w IH]; intros n.
+  - cbn [N_to_be be_to_N_acc]. change (256 ^ N.of_nat 0) with 1. now rewrite N.mod_1_r.
+  - cbn [N_to_be]. rewrite be_acc_app, IH. cbn [be_to_N_acc].
+    rewrite Nat2N.inj_succ, N.pow_succ_r'.
+    rewrite (N.mod_mul_r n 256 (256 ^ N.of_nat w)); [lia|lia|].
+    apply N.pow_nonzero. lia.
+Qed.
+
+Lemma be_N_to_be : forall w n, n < 256 ^ N.of_nat w -> be_to_N (N_to_be w n) = n.
+Proof. intros w n H. rewrite be_N_to_be_mod. now apply N.mod_small. Qed.
+
+Lemma read_n_app : forall a rest off,
+  read_n (N.of_nat (length a)) (a ++ rest, off) = Ok (a, (rest, off + N.of_nat (length a))).
+Proof.
+  intros a rest off. unfold read_n. cbn [fst snd].
+  assert (N.of_nat (length (a ++ rest)) <? N.of_nat (length a) = false) as ->.
+  { rewrite app_length. lia. }
+  rewrite Nat2N.id, take_app_length, drop_app_length. reflexivity.
+Qed.
+
+Lemma read_u_enc : forall w n rest off, n < 256 ^ N.of_nat w ->
+  read_u (N.of_nat w) (N_to_be w n ++ rest, off) = Ok (n, (rest, off + N.of_nat w)).
+Proof.
+  intros w n rest off H. unfold read_u.
+  rewrite <- (N_to_be_length w n) at 1. rewrite read_n_app, N_to_be_length.
+  now rewrite be_N_to_be.
+Qed.
+
+Lemma read_u2 : forall n rest off, n < 65536 -> read_u 2 (N_to_be 2 n ++ rest, off) = Ok (n, (rest, off + 2)).
+Proof. intros. now apply (read_u_enc 2). Qed.
+Lemma read_u4 : forall n rest off, n < 4294967296 -> read_u 4 (N_to_be 4 n ++ rest, off) = Ok (n, (rest, off + 4)).
+Proof. intros. now apply (read_u_enc 4). Qed.
+Lemma read_u8 : forall n rest off, n < 18446744073709551616 -> read_u 8 (N_to_be 8 n ++ rest, off) = Ok (n, (rest, off + 8)).
+Proof. intros. now apply (read_u_enc 8). Qed.
+
+Lemma read_string_enc : forall s rest off, N.of_nat (length s) < 65536 ->
+  exists off', read_string (enc_string s ++ rest, off) = Ok (s, (rest, off')).
+Proof.
+  intros s rest off H. unfold read_string, enc_string. rewrite <- app_assoc.
+  rewrite read_u2 by exact H. rewrite read_n_app. eauto.
+Qed.
+
+Definition is_nil {A} (l : list A) : bool := match l with [] => true | _ => false end.
+Lemma is_nil_true : forall A (l : list A), is_nil l = true -> l = [].
+Proof. intros A [|x l]; [reflexivity|discriminate]. Qed.
+
+Definition cert_ok (c : jcert) : bool :=
+  (N.of_nat (length (jc_type c)) <? 65536) && (N.of_nat (length (jc_bytes c)) <? 4294967296).
+
+(* what the stream format can represent, per entry type *)
+Definition jentry_ok (e : jentry) : bool :=
+  (je_type e <? 4294967296) && (N.of_nat (length (je_alias e)) <? 65536) && (je_date e <? 18446744073709551616) &&
+  (if je_type e =? 1 then
+     (N.of_nat (length (je_key e)) <? 4294967296) && (N.of_nat (length (je_certs e)) <? 4294967296)
+     && forallb cert_ok (je_certs e) && is_nil (je_seal e)
+   else if je_type e =? 2 then
+     is_nil (je_key e) && is_nil (je_seal e) && match je_certs e with [c] => cert_ok c | _ => false end
+   else if je_type e =? 3 then is_nil (je_certs e)
+   else is_nil (je_key e) && is_nil (je_seal e) && is_nil (je_certs e)).
+
+Section JksCodec.
+  Variable secret : N -> bytes -> result (N * bytes * bytes).
+
+  (* the sealed-object reader gives back what the blob stands for and consumes exactly the blob *)
+  Definition secret_ok (eb : jentry * bytes) : Prop :=
+    je_type (fst eb) = 3 -> forall off rest,
+      secret off (snd eb ++ rest) = Ok (N.of_nat (length (snd eb)), je_seal (fst eb), je_key (fst eb)).
+
+  Lemma read_certs_enc : forall cs fuel rest off,
+    forallb cert_ok cs = true -> (length cs <= fuel)%nat ->
+    exists off', read_certs fuel (N.of_nat (length cs)) (concat (map enc_cert cs) ++ rest, off) = Ok (cs, (rest, off')).
+  Proof.
+    induction cs as [|c cs IH]; intros fuel rest off Hok Hf.
+    - exists off. destruct fuel; reflexivity.
+    - destruct fuel as [|f]; [cbn in Hf; lia|].
+      cbn [forallb] in Hok. apply andb_prop in Hok as [Hc Hcs].
+      unfold cert_ok in Hc. apply andb_prop in Hc as [Ht Hb].
+      cbn [read_certs length map concat].
+      assert (N.of_nat (S (length cs)) =? 0 = false) as -> by lia.
+      unfold enc_cert at 1. rewrite <- !app_assoc.
+      destruct (read_string_enc (jc_type c) (N_to_be 4 (N.of_nat (length (jc_bytes c))) ++ jc_bytes c ++ concat (map enc_cert cs) ++ rest) off) as [o1 ->]; [lia|].
+      rewrite read_u4 by lia. rewrite read_n_app.
+      replace (N.of_nat (S (length cs)) - 1) with (N.of_nat (length cs)) by lia.
+      destruct (IH f rest (o1 + 4 + N.of_nat (length (jc_bytes c))) Hcs) as [o2 ->]; [cbn in Hf; lia|].
+      exists o2. destruct c; reflexivity.
+  Qed.
+
+  Lemma certs_enc_length : forall cs, (length cs <= length (concat (map enc_cert cs)))%nat.
+  Proof.
+    induction cs as [|c cs IH]; cbn [map concat length]; [lia|].
+    unfold enc_cert at 1. unfold enc_string. rewrite !app_length, N_to_be_length. lia.
+  Qed.
+
+  Lemma entry_certs_length : forall e blob rest, jentry_ok e = true ->
+    (length (je_certs e) <= length (enc_entry (e, blob) ++ rest))%nat.
+  Proof.
+    intros e blob rest H. unfold jentry_ok in H. apply andb_prop in H as [_ H].
+    unfold enc_entry. cbn [fst snd]. rewrite !app_length.
+    destruct (je_type e =? 1) eqn:E1.
+    - rewrite !app_length. pose proof (certs_enc_length (je_certs e)). lia.
+    - destruct (je_type e =? 2) eqn:E2.
+      + pose proof (certs_enc_length (je_certs e)). lia.
+      + destruct (je_type e =? 3) eqn:E3.
+        * apply is_nil_true in H. rewrite H. cbn [length]. lia.
+        * apply andb_prop in H as [_ H]. apply is_nil_true in H. rewrite H. cbn [length]. lia.
+  Qed.
+
+  Lemma read_entry_enc : forall e blob fuel rest off,
+    jentry_ok e = true -> secret_ok (e, blob) -> (length (je_certs e) <= fuel)%nat ->
+    exists off', read_entry secret fuel (enc_entry (e, blob) ++ rest, off) = Ok (e, (rest, off')).
+  Proof.
+    intros e blob fuel rest off Hok Hsec Hf.
+    unfold jentry_ok in Hok. apply andb_prop in Hok as [Hok Hbody].
+    apply andb_prop in Hok as [Hok Hdate]. apply andb_prop in Hok as [Htype Halias].
+    unfold read_entry, enc_entry. cbn [fst snd]. rewrite <- !app_assoc.
+    rewrite read_u4 by lia.
+    destruct (read_string_enc (je_alias e)
+               (N_to_be 8 (je_date e) ++
+                (if je_type e =? 1
+                 then N_to_be 4 (N.of_nat (length (je_key e))) ++ je_key e ++
+                      N_to_be 4 (N.of_nat (length (je_certs e))) ++ concat (map enc_cert (je_certs e))
+                 else if je_type e =? 2 then concat (map enc_cert (je_certs e))
+                 else if je_type e =? 3 then blob else []) ++ rest) (off + 4)) as [o1 ->]; [lia|].
+    rewrite read_u8 by lia.
+    destruct e as [t alias date key seal certs]. cbn [je_type je_alias je_date je_key je_seal je_certs] in *.
+    destruct (t =? 1) eqn:E1.
+    - apply N.eqb_eq in E1. subst t.
+      apply andb_prop in Hbody as [Hbody Hseal]. apply andb_prop in Hbody as [Hbody Hcs].
+      apply andb_prop in Hbody as [Hk Hn]. apply is_nil_true in Hseal. subst seal.
+      rewrite <- !app_assoc. rewrite read_u4 by lia. rewrite read_n_app. rewrite read_u4 by lia.
+      destruct (read_certs_enc certs fuel rest (o1 + 8 + 4 + N.of_nat (length key) + 4) Hcs Hf) as [o2 ->].
+      eauto.
+    - destruct (t =? 2) eqn:E2.
+      + apply N.eqb_eq in E2. subst t.
+        apply andb_prop in Hbody as [Hbody Hc]. apply andb_prop in Hbody as [Hk Hs].
+        apply is_nil_true in Hk. apply is_nil_true in Hs. subst key seal.
+        destruct certs as [|c [|c2 cs]]; try discriminate.
+        assert (Hcs : forallb cert_ok [c] = true) by (cbn [forallb]; now rewrite Hc).
+        destruct (read_certs_enc [c] fuel rest (o1 + 8) Hcs Hf) as [o2 H2].
+        cbn [length] in H2. change (N.of_nat 1) with 1 in H2. rewrite H2. eauto.
+      + destruct (t =? 3) eqn:E3.
+        * apply N.eqb_eq in E3. subst t. apply is_nil_true in Hbody. subst certs.
+          cbn [fst snd]. rewrite (Hsec eq_refl). cbn [fst snd].
+          rewrite Nat2N.id, drop_app_length. eauto.
+        * apply andb_prop in Hbody as [Hbody Hc]. apply andb_prop in Hbody as [Hk Hs].
+          apply is_nil_true in Hk. apply is_nil_true in Hs. apply is_nil_true in Hc. subst key seal certs.
+          cbn [app]. eauto.
+  Qed.
+
+  Lemma read_entries_enc : forall ebs fuel rest off,
+    forallb (fun eb => jentry_ok (fst eb)) ebs = true -> (forall eb, In eb ebs -> secret_ok eb) ->
+    (length ebs <= fuel)%nat ->
+    exists off', read_entries secret fuel (N.of_nat (length ebs)) (concat (map enc_entry ebs) ++ rest, off)
+                 = Ok (map fst ebs, (rest, off')).
+  Proof.
+    induction ebs as [|[e blob] ebs IH]; intros fuel rest off Hok Hsec Hf.
+    - exists off. destruct fuel; reflexivity.
+    - destruct fuel as [|f]; [cbn in Hf; lia|].
+      cbn [forallb fst] in Hok. apply andb_prop in Hok as [He Hes].
+      cbn [read_entries length map concat fst].
+      assert (N.of_nat (S (length ebs)) =? 0 = false) as -> by lia.
+      rewrite <- app_assoc.
+      destruct (read_entry_enc e blob (S (length (enc_entry (e, blob) ++ concat (map enc_entry ebs) ++ rest)))
+                  (concat (map enc_entry ebs) ++ rest) off He (Hsec _ (or_introl eq_refl))) as [o1 H1].
+      { pose proof (entry_certs_length e blob (concat (map enc_entry ebs) ++ rest) He). lia. }
+      cbn [fst]. rewrite H1.
+      replace (N.of_nat (S (length ebs)) - 1) with (N.of_nat (length ebs)) by lia.
+      destruct (IH f rest o1 Hes) as [o2 ->]; [intros eb Hin; apply Hsec; now right|cbn in Hf; lia|].
+      eauto.
+  Qed.
+
+  Lemma entries_enc_length : forall ebs, (length ebs <= length (concat (map enc_entry ebs)))%nat.
+  Proof.
+    induction ebs as [|eb ebs IH]; cbn [map concat length]; [lia|].
+    unfold enc_entry at 1. rewrite !app_length, N_to_be_length. lia.
+  Qed.
+
+  Definition magic_ok (m : bytes) : Prop := m = jks_magic \/ m = jceks_magic.
+
+  (* InsecureParse (writer output) = the entries that were written *)
+  Lemma jks_parse_encode : forall magic version ebs mac,
+    magic_ok magic -> version < 4294967296 -> N.of_nat (length ebs) < 4294967296 -> length mac = 20%nat ->
+    forallb (fun eb => jentry_ok (fst eb)) ebs = true -> (forall eb, In eb ebs -> secret_ok eb) ->
+    jks_parse secret (jks_encode magic version ebs mac) = Ok (map fst ebs).
+  Proof.
+    intros magic version ebs mac Hm Hv Hn Hmac Hok Hsec.
+    assert (Hml : length magic = 4%nat) by (destruct Hm as [-> | ->]; reflexivity).
+    unfold jks_parse, jks_encode.
+    assert (Nat.ltb (length (magic ++ N_to_be 4 version ++ N_to_be 4 (N.of_nat (length ebs)) ++ concat (map enc_entry ebs) ++ mac)) 4 = false) as ->.
+    { apply Nat.ltb_ge. rewrite app_length. lia. }
+    assert (prefix_of jks_magic (magic ++ N_to_be 4 version ++ N_to_be 4 (N.of_nat (length ebs)) ++ concat (map enc_entry ebs) ++ mac)
+            || prefix_of jceks_magic (magic ++ N_to_be 4 version ++ N_to_be 4 (N.of_nat (length ebs)) ++ concat (map enc_entry ebs) ++ mac) = true) as ->.
+    { destruct Hm as [-> | ->]; rewrite prefix_of_app; [reflexivity|apply orb_true_r]. }
+    set (hdr := magic ++ N_to_be 4 version ++ N_to_be 4 (N.of_nat (length ebs))).
+    assert (Hhl : length hdr = 12%nat).
+    { unfold hdr. rewrite !app_length, !N_to_be_length. lia. }
+    replace (magic ++ N_to_be 4 version ++ N_to_be 4 (N.of_nat (length ebs)) ++ concat (map enc_entry ebs) ++ mac)
+      with (hdr ++ concat (map enc_entry ebs) ++ mac) by (unfold hdr; now rewrite <- !app_assoc).
+    change 12 with (N.of_nat 12). rewrite <- Hhl. rewrite read_n_app.
+    assert (drop 8 hdr = N_to_be 4 (N.of_nat (length ebs))) as ->.
+    { unfold hdr. rewrite app_assoc.
+      replace 8%nat with (length (magic ++ N_to_be 4 version)) by (rewrite app_length, N_to_be_length; lia).
+      apply drop_app_length. }
+    rewrite (be_N_to_be 4) by exact Hn.
+    destruct (read_entries_enc ebs (S (length (hdr ++ concat (map enc_entry ebs) ++ mac))) mac (0 + N.of_nat (length hdr)) Hok Hsec) as [o1 ->].
+    { pose proof (entries_enc_length ebs). rewrite !app_length. lia. }
+    change 20 with (N.of_nat 20). rewrite <- Hmac. rewrite <- (app_nil_r mac) at 2.
+    rewrite read_n_app. reflexivity.
+  Qed.
+End JksCodec.
+
+(* --- describing the entries --- *)
+Section JksChildren.
+  Variable cert_info : bytes -> result info.
+  Variable enc_name : bytes -> bytes -> bytes.
+
+  Definition is_x509 (c : jcert) : bool := bytes_eqb (map to_upper_ascii (jc_type c)) (bs "X.509").
+
+  (* the child that stands for one certificate of a chain (repaired code) *)
+  Definition cert_child (c : jcert) : info :=
+    if is_x509 c then match cert_info (jc_bytes c) with Ok i => i | _ => unparsable_cert end
+    else Info (jc_type c ++ bs " certificate") [] [].
+
+  Definition certs_calm (cs : list jcert) : Prop :=
+    forall c, In c cs -> is_x509 c = true -> is_panic (cert_info (jc_bytes c)) = false.
+
+  Lemma cert_children_total : forall cs, certs_calm cs ->
+    cert_children cert_info true cs = Ok (map cert_child cs).
+  Proof.
+    induction cs as [|c cs IH]; intros H; [reflexivity|].
+    assert (Hcs : certs_calm cs) by (intros c' Hc'; apply H; now right).
+    cbn [cert_children map]. fold (is_x509 c). rewrite (IH Hcs).
+    assert (Hc : cert_child c = if is_x509 c then match cert_info (jc_bytes c) with Ok i => i | _ => unparsable_cert end
+                                else Info (jc_type c ++ bs " certificate") [] []) by reflexivity.
+    rewrite Hc. destruct (is_x509 c) eqn:Ex; [|reflexivity].
+    pose proof (H c (or_introl eq_refl) Ex) as Hp.
+    destruct (cert_info (jc_bytes c)); [reflexivity|reflexivity|discriminate].
+  Qed.
+
+  Definition entry_child (e : jentry) : info :=
+    Info (je_alias e ++ bs " (" ++ entry_type_name (je_type e) ++ bs ")")
+         [(bs "Date", jks_date (je_date e))]
+         (map cert_child (je_certs e) ++ key_child enc_name e).
+
+  Lemma jks_entries_total : forall es, (forall e, In e es -> certs_calm (je_certs e)) ->
+    jks_entries_info cert_info enc_name true es = Ok (map entry_child es).
+  Proof.
+    induction es as [|e es IH]; intros H; [reflexivity|].
+    cbn [jks_entries_info map]. unfold jks_entry_info.
+    rewrite cert_children_total by (apply H; now left).
+    rewrite IH by (intros e' He'; apply H; now right). reflexivity.
+  Qed.
+End JksChildren.
+
+(* the pre-repair code: a chain with a certificate crypto/x509 rejects loses a child *)
+Definition toy_cert_info (der : bytes) : result info :=
+  match der with
+  | 48 :: _ => Ok (Info (bs "x.509v3 certificate") [(bs "Serial", der)] [])
+  | _ => Err "x509: malformed certificate"
+  end.
+Definition toy_chain : list jcert :=
+  [mkjcert (bs "X.509") [48; 1]; mkjcert (bs "X.509") [0; 0]; mkjcert (bs "X.509") [48; 2]].
+
+(* ====================================================================== *)
+(* Part E.  As if inspected alone; pre-repair witnesses; fuel             *)
+
+Lemma Forall2_map_r : forall (A B : Type) (f : A -> B) (P : A -> B -> Prop) (l : list A),
+  (forall a, In a l -> P a (f a)) -> Forall2 P l (map f l).
+Proof.
+  induction l as [|a l IH]; intros H; cbn [map]; constructor.
+  - apply H. now left.
+  - apply IH. intros a' Ha'. apply H. now right.
+Qed.
+
+Lemma entries_of_In_ok : forall its e, layout_ok its = true -> In e (entries_of its) -> entry_ok e = true.
+Proof.
+  induction its as [|it its IH]; intros e Hok Hin; [destruct Hin|].
+  cbn [layout_ok forallb] in Hok. apply andb_prop in Hok as [Hit Hits].
+  destruct it as [l|w|w t]; cbn [entries_of] in Hin; try (now apply IH).
+  destruct Hin as [<-|Hin]; [exact Hit|now apply IH].
+Qed.
+
+(* each child of the multi-entry file is the only child of the file that holds that entry alone *)
+Lemma ssh_as_if_alone : forall lib desc its le trail,
+  layout_ok its = true ->
+  (forall e, In e (entries_of its) -> lib_accepts lib e) ->
+  exists children,
+    ssh_file ssh_skip lib desc (render its le trail) = Ok (Info desc [] children) /\
+    length children = length (entries_of its) /\
+    Forall2 (fun e c => forall le' trail',
+               ssh_file ssh_skip lib desc (render [IEntry e] le' trail') = Ok (Info desc [] [c]))
+            (entries_of its) children.
+Proof.
+  intros lib desc its le trail Hok Hlib. exists (map (ssh_child lib) (entries_of its)).
+  split; [now apply ssh_layout_file|]. split; [apply map_length|].
+  apply Forall2_map_r. intros e He le' trail'.
+  rewrite ssh_layout_file; [reflexivity| |].
+  - cbn [layout_ok forallb item_ok]. now rewrite (entries_of_In_ok its e Hok He).
+  - intros e' [<-|[]]. now apply Hlib.
+Qed.
+
+Section PemAlone.
+  Variable enc : pblock -> bytes.
+  Variable dec : bytes -> option (pblock * bytes).
+  Variable describe : pblock -> result info.
+  Variable d : pblock -> info.
+  Hypothesis enc_begin : forall b, prefix_of pem_begin (enc b) = true.
+  Hypothesis dec_enc : forall b rest, dec (enc b ++ rest) = Some (b, rest).
+
+  (* a file that holds one block (not PGP armor) is described as that block *)
+  Lemma pem_file_single : forall b, is_pgp_type (pb_type b) = false -> describe b = Ok (d b) ->
+    pem_file dec describe (enc b) = Ok (d b).
+  Proof.
+    intros b Hp Hd.
+    pose proof (pem_file_bundle enc dec describe d enc_begin dec_enc [([], b)] []) as H.
+    cbn [pem_render app] in H. rewrite app_nil_r in H. rewrite H; clear H.
+    - unfold listed. cbn [map snd filter]. rewrite Hp. reflexivity.
+    - reflexivity.
+    - unfold listed. cbn [map snd filter]. rewrite Hp. cbn [negb]. intros b' [<-|[]]. exact Hd.
+  Qed.
+
+  Lemma listed_not_pgp : forall items b, In b (listed items) -> is_pgp_type (pb_type b) = false.
+  Proof.
+    intros items b H. unfold listed in H. apply filter_In in H as [_ H]. now destruct (is_pgp_type (pb_type b)).
+  Qed.
+
+  Lemma pem_as_if_alone : forall items tail,
+    bundle_ok items tail = true ->
+    (forall b, In b (listed items) -> describe b = Ok (d b)) ->
+    (2 <= length (listed items))%nat ->
+    exists children,
+      pem_file dec describe (pem_render enc items tail) = Ok (Info (bs "multiple PEM blocks") [] children) /\
+      length children = length (listed items) /\
+      Forall2 (fun b c => pem_file dec describe (enc b) = Ok c) (listed items) children.
+  Proof.
+    intros items tail Hok Hd Hn. exists (map d (listed items)).
+    split; [|split; [apply map_length|]].
+    - rewrite (pem_file_bundle enc dec describe d enc_begin dec_enc items tail Hok Hd).
+      destruct (listed items) as [|b1 [|b2 l]]; cbn [length] in Hn; try lia. reflexivity.
+    - apply Forall2_map_r. intros b Hb. apply pem_file_single; [now apply (listed_not_pgp items)|now apply Hd].
+  Qed.
+End PemAlone.
+
+(* ---- fuel is never exhausted ---- *)
+Lemma drop_length_le : forall (A : Type) k (l : list A), (length (drop k l) <= length l)%nat.
+Proof. induction k as [|k IH]; intros [|x l]; cbn [drop length]; try lia. specialize (IH l). lia. Qed.
+
+Lemma skip_to_pem_length : forall l, (length (skip_to_pem l) <= length l)%nat.
+Proof. intros l. unfold skip_to_pem. destruct (index_of pem_begin l); [apply drop_length_le|cbn; lia]. Qed.
+
+(* pem.Decode returns a strictly shorter rest (getLine's second result is always smaller than
+   its argument): the loop of PEMFile does not depend on the fuel it is given *)
+Lemma pem_loop_fuel : forall dec describe,
+  (forall r b r', dec r = Some (b, r') -> (length r' < length r)%nat) ->
+  forall f1 f2 rest, (length rest < f1)%nat -> (length rest < f2)%nat ->
+  pem_loop dec describe f1 rest = pem_loop dec describe f2 rest.
+Proof.
+  intros dec describe Hdec. induction f1 as [|f1 IH]; intros f2 rest H1 H2; [lia|].
+  destruct f2 as [|f2]; [lia|]. cbn [pem_loop]. destruct rest as [|x rest]; [reflexivity|].
+  destruct (dec (x :: rest)) as [[b r']|] eqn:E; [|reflexivity].
+  pose proof (Hdec _ _ _ E) as Hl. pose proof (skip_to_pem_length r') as Hs.
+  rewrite (IH f2 (skip_to_pem r')) by lia. reflexivity.
+Qed.
+
+Lemma pem_loop_no_fuel_error : forall dec describe,
+  (forall r b r', dec r = Some (b, r') -> (length r' < length r)%nat) ->
+  (forall b, describe b <> Err "fuel") ->
+  forall f rest, (length rest < f)%nat -> pem_loop dec describe f rest <> Err "fuel".
+Proof.
+  intros dec describe Hdec Hdesc. induction f as [|f IH]; intros rest Hf; [lia|].
+  cbn [pem_loop]. destruct rest as [|x rest]; [discriminate|].
+  destruct (dec (x :: rest)) as [[b r']|] eqn:E; [|discriminate].
+  pose proof (Hdec _ _ _ E) as Hl. pose proof (skip_to_pem_length r') as Hs.
+  assert (Hrec : pem_loop dec describe f (skip_to_pem r') <> Err "fuel") by (apply IH; lia).
+  destruct (is_pgp_type (pb_type b)); [exact Hrec|].
+  specialize (Hdesc b). destruct (describe b); [|intros Hx; apply Hdesc; injection Hx as ->; reflexivity|discriminate].
+  destruct (pem_loop dec describe f (skip_to_pem r')); [discriminate|exact Hrec|discriminate].
+Qed.
+
+(* the keystore loops: every iteration consumes input, so the fuel (length of the input + 1)
+   is never exhausted *)
+Lemma drop_length : forall (A : Type) k (l : list A), length (drop k l) = (length l - k)%nat.
+Proof. induction k as [|k IH]; intros [|x l]; cbn [drop length]; try lia. apply IH. Qed.
+
+Lemma read_n_len : forall n r b r', read_n n r = Ok (b, r') ->
+  (length (fst r') + N.to_nat n = length (fst r))%nat.
+Proof.
+  intros n r b r' H. unfold read_n in H.
+  destruct (N.of_nat (length (fst r)) <? n) eqn:E; [discriminate|].
+  injection H as _ <-. cbn [fst]. rewrite drop_length. lia.
+Qed.
+
+Lemma read_n_err : forall n r e, read_n n r = Err e -> e <> "fuel"%string.
+Proof.
+  intros n r e H. unfold read_n in H. destruct (N.of_nat (length (fst r)) <? n); [|discriminate].
+  injection H as <-. discriminate.
+Qed.
+
+Lemma read_n_nopanic : forall n r e, read_n n r <> Panic e.
+Proof. intros n r e. unfold read_n. destruct (N.of_nat (length (fst r)) <? n); discriminate. Qed.
+
+Lemma read_u_len : forall w r v r', read_u w r = Ok (v, r') ->
+  (length (fst r') + N.to_nat w = length (fst r))%nat.
+Proof.
+  intros w r v r' H. unfold read_u in H. destruct (read_n w r) as [[b r1]|e|e] eqn:E; try discriminate.
+  injection H as _ <-. exact (read_n_len _ _ _ _ E).
+Qed.
+
+Lemma read_u_err : forall w r e, read_u w r = Err e -> e <> "fuel"%string.
+Proof.
+  intros w r e H. unfold read_u in H. destruct (read_n w r) as [[b r1]|e'|e'] eqn:E; try discriminate.
+  injection H as <-. exact (read_n_err _ _ _ E).
+Qed.
+
+Lemma read_u_nopanic : forall w r e, read_u w r <> Panic e.
+Proof.
+  intros w r e H. unfold read_u in H. destruct (read_n w r) as [[b r1]|e'|e'] eqn:E; try discriminate.
+  exact (read_n_nopanic _ _ _ E).
+Qed.
+
+Lemma read_string_len : forall r s r', read_string r = Ok (s, r') -> (length (fst r') + 2 <= length (fst r))%nat.
+Proof.
+  intros r s r' H. unfold read_string in H. destruct (read_u 2 r) as [[l r1]|e|e] eqn:E; try discriminate.
+  pose proof (read_u_len _ _ _ _ E) as H1. pose proof (read_n_len _ _ _ _ H) as H2.
+  change (N.to_nat 2) with 2%nat in H1. lia.
+Qed.
+
+Lemma read_string_err : forall r e, read_string r = Err e -> e <> "fuel"%string.
+Proof.
+  intros r e H. unfold read_string in H. destruct (read_u 2 r) as [[l r1]|e'|e'] eqn:E; try discriminate.
+  - exact (read_n_err _ _ _ H).
+  - injection H as <-. exact (read_u_err _ _ _ E).
+Qed.
+
+Lemma read_certs_no_fuel : forall fuel count r, (length (fst r) < fuel)%nat ->
+  read_certs fuel count r <> Err "fuel".
+Proof.
+  induction fuel as [|f IH]; intros count r Hf; [lia|].
+  cbn [read_certs]. destruct (count =? 0); [discriminate|].
+  destruct (read_string r) as [[t r1]|e|e] eqn:E1; [| |discriminate].
+  2:{ intros Hx. injection Hx as ->. exact (read_string_err _ _ E1 eq_refl). }
+  destruct (read_u 4 r1) as [[l r2]|e|e] eqn:E2; [| |discriminate].
+  2:{ intros Hx. injection Hx as ->. exact (read_u_err _ _ _ E2 eq_refl). }
+  destruct (read_n l r2) as [[b r3]|e|e] eqn:E3; [| |discriminate].
+  2:{ intros Hx. injection Hx as ->. exact (read_n_err _ _ _ E3 eq_refl). }
+  pose proof (read_string_len _ _ _ E1). pose proof (read_u_len _ _ _ _ E2). pose proof (read_n_len _ _ _ _ E3).
+  change (N.to_nat 4) with 4%nat in *. unfold rd, bytes in *.
+  assert (Hrec : read_certs f (count - 1) r3 <> Err "fuel") by (apply IH; lia).
+  destruct (read_certs f (count - 1) r3) as [[cs r4]|e|e]; [discriminate|exact Hrec|discriminate].
+Qed.
+
+Ltac err_fuel E lem := let Hx := fresh "Hx" in intros Hx; injection Hx as Hx; exact (lem E Hx).
+
+Lemma read_certs_len : forall fuel count r cs r', read_certs fuel count r = Ok (cs, r') ->
+  (length (fst r') <= length (fst r))%nat.
+Proof.
+  induction fuel as [|f IH]; intros count r cs r'; cbn [read_certs].
+  - destruct (count =? 0); [|discriminate]. intros H. injection H as _ <-. lia.
+  - destruct (count =? 0); [intros H; injection H as _ <-; lia|].
+    destruct (read_string r) as [[t r1]|x|x] eqn:E1; try (intros; discriminate).
+    destruct (read_u 4 r1) as [[l r2]|x|x] eqn:E2; try (intros; discriminate).
+    destruct (read_n l r2) as [[b r3]|x|x] eqn:E3; try (intros; discriminate).
+    destruct (read_certs f (count - 1) r3) as [[cs' r4]|x|x] eqn:E; try (intros; discriminate).
+    intros Hx. injection Hx as _ <-. apply IH in E.
+    pose proof (read_string_len _ _ _ E1). pose proof (read_u_len _ _ _ _ E2). pose proof (read_n_len _ _ _ _ E3).
+    unfold rd, bytes in *. lia.
+Qed.
+
+Section JksFuel.
+  Variable secret : N -> bytes -> result (N * bytes * bytes).
+  Hypothesis secret_no_fuel : forall off rest, secret off rest <> Err "fuel".
+
+  Lemma read_entry_no_fuel : forall r, read_entry secret (S (length (fst r))) r <> Err "fuel".
+  Proof.
+    intros r. unfold read_entry.
+    destruct (read_u 4 r) as [[typ r1]|x|x] eqn:E1; [|err_fuel E1 (read_u_err 4 r x)|discriminate].
+    destruct (read_string r1) as [[alias r2]|x|x] eqn:E2; [|err_fuel E2 (read_string_err r1 x)|discriminate].
+    destruct (read_u 8 r2) as [[date r3]|x|x] eqn:E3; [|err_fuel E3 (read_u_err 8 r2 x)|discriminate].
+    pose proof (read_u_len _ _ _ _ E1) as L1. pose proof (read_string_len _ _ _ E2) as L2.
+    pose proof (read_u_len _ _ _ _ E3) as L3.
+    change (N.to_nat 4) with 4%nat in *. change (N.to_nat 8) with 8%nat in *.
+    destruct (typ =? 1).
+    - destruct (read_u 4 r3) as [[l r4]|x|x] eqn:E4; [|err_fuel E4 (read_u_err 4 r3 x)|discriminate].
+      destruct (read_n l r4) as [[key r5]|x|x] eqn:E5; [|err_fuel E5 (read_n_err l r4 x)|discriminate].
+      destruct (read_u 4 r5) as [[cc r6]|x|x] eqn:E6; [|err_fuel E6 (read_u_err 4 r5 x)|discriminate].
+      pose proof (read_u_len _ _ _ _ E4) as L4. pose proof (read_n_len _ _ _ _ E5) as L5.
+      pose proof (read_u_len _ _ _ _ E6) as L6. change (N.to_nat 4) with 4%nat in *.
+      assert (Hc : read_certs (S (length (fst r))) cc r6 <> Err "fuel").
+      { apply read_certs_no_fuel. unfold rd, bytes in *. lia. }
+      destruct (read_certs (S (length (fst r))) cc r6) as [[cs r7]|x|x]; [discriminate|intros Hx; apply Hc; now injection Hx as ->|discriminate].
+    - destruct (typ =? 2).
+      + assert (Hc : read_certs (S (length (fst r))) 1 r3 <> Err "fuel").
+        { apply read_certs_no_fuel. unfold rd, bytes in *. lia. }
+        destruct (read_certs (S (length (fst r))) 1 r3) as [[cs r7]|x|x]; [discriminate|intros Hx; apply Hc; now injection Hx as ->|discriminate].
+      + destruct (typ =? 3); [|discriminate].
+        pose proof (secret_no_fuel (snd r3) (fst r3)) as Hs.
+        destruct (secret (snd r3) (fst r3)) as [[[k seal] content]|x|x]; [discriminate| |discriminate].
+        intros Hx. apply Hs. now injection Hx as ->.
+  Qed.
+
+  Lemma read_entry_len : forall fuel r e r', read_entry secret fuel r = Ok (e, r') ->
+    (length (fst r') + 14 <= length (fst r))%nat.
+  Proof.
+    intros fuel r e r'. unfold read_entry.
+    destruct (read_u 4 r) as [[typ r1]|x|x] eqn:E1; try (intros; discriminate).
+    destruct (read_string r1) as [[alias r2]|x|x] eqn:E2; try (intros; discriminate).
+    destruct (read_u 8 r2) as [[date r3]|x|x] eqn:E3; try (intros; discriminate).
+    pose proof (read_u_len _ _ _ _ E1) as L1. pose proof (read_string_len _ _ _ E2) as L2.
+    pose proof (read_u_len _ _ _ _ E3) as L3.
+    change (N.to_nat 4) with 4%nat in *. change (N.to_nat 8) with 8%nat in *.
+    destruct (typ =? 1).
+    - destruct (read_u 4 r3) as [[l r4]|x|x] eqn:E4; try (intros; discriminate).
+      destruct (read_n l r4) as [[key r5]|x|x] eqn:E5; try (intros; discriminate).
+      destruct (read_u 4 r5) as [[cc r6]|x|x] eqn:E6; try (intros; discriminate).
+      pose proof (read_u_len _ _ _ _ E4) as L4. pose proof (read_n_len _ _ _ _ E5) as L5.
+      pose proof (read_u_len _ _ _ _ E6) as L6. change (N.to_nat 4) with 4%nat in *.
+      destruct (read_certs fuel cc r6) as [[cs r7]|x|x] eqn:E; try (intros; discriminate).
+      intros Hx. injection Hx as _ <-. apply read_certs_len in E. unfold rd, bytes in *. lia.
+    - destruct (typ =? 2).
+      + destruct (read_certs fuel 1 r3) as [[cs r7]|x|x] eqn:E; try (intros; discriminate).
+        intros Hx. injection Hx as _ <-. apply read_certs_len in E. unfold rd, bytes in *. lia.
+      + destruct (typ =? 3).
+        * destruct (secret (snd r3) (fst r3)) as [[[k seal] content]|x|x]; try (intros; discriminate).
+          intros Hx. injection Hx as _ <-. cbn [fst].
+          pose proof (drop_length_le _ (N.to_nat k) (fst r3)). unfold rd, bytes in *. lia.
+        * intros Hx. injection Hx as _ <-. unfold rd, bytes in *. lia.
+  Qed.
+
+  Lemma read_entries_no_fuel : forall fuel count r, (length (fst r) < fuel)%nat ->
+    read_entries secret fuel count r <> Err "fuel".
+  Proof.
+    induction fuel as [|f IH]; intros count r Hf; [lia|].
+    cbn [read_entries]. destruct (count =? 0); [discriminate|].
+    pose proof (read_entry_no_fuel r) as H1.
+    destruct (read_entry secret _ r) as [[e r1]|x|x] eqn:E; [|intros Hx; injection Hx as ->; first [exact (H1 eq_refl)|exact (H1 E)]|discriminate].
+    apply read_entry_len in E.
+    assert (Hrec : read_entries secret f (count - 1) r1 <> Err "fuel") by (apply IH; unfold rd, bytes in *; lia).
+    destruct (read_entries secret f (count - 1) r1) as [[es r2]|x|x]; [discriminate|exact Hrec|discriminate].
+  Qed.
+End JksFuel.
+
+(* ====================================================================== *)
+(* Part F.  The statements of Props/C06.v                                  *)
+
+Lemma authorized_keys_layout : forall lib its le trail,
+  layout_ok its = true -> (forall e, In e (entries_of its) -> lib_accepts lib e) ->
+  authorized_keys lib (render its le trail) =
+    Ok (Info (bs "SSH authorized_keys") [] (map (ssh_child lib) (entries_of its))).
+Proof. intros. unfold authorized_keys. now apply ssh_layout_file. Qed.
+
+Lemma known_hosts_layout : forall lib its le trail,
+  layout_ok its = true -> (forall e, In e (entries_of its) -> lib_accepts lib e) ->
+  known_hosts lib (render its le trail) =
+    Ok (Info (bs "SSH known_hosts") [] (map (ssh_child lib) (entries_of its))).
+Proof. intros. unfold known_hosts. now apply ssh_layout_file. Qed.
+
+Lemma ssh_file_bad_line : forall lib desc data l,
+  In l (split_lf data) -> ssh_skip l = false -> (exists e, lib l = Err e) ->
+  (forall l', In l' (split_lf data) -> is_panic (lib l') = false) ->
+  exists e, ssh_file ssh_skip lib desc data = Err e.
+Proof.
+  intros lib desc data l Hin Hs He Hnp. unfold ssh_file.
+  destruct (ssh_bad_line ssh_skip lib (split_lf data) l Hin Hs He Hnp) as [e ->]. eauto.
+Qed.
+
+(* non-vacuity: a realistic layout meets the hypotheses *)
+Definition example_layout : list item :=
+  [IComment [] (bs " my keys"); IEntry toy_k1; IBlank [32; 9]; IComment [32] (bs "ssh-rsa AAAA disabled"); IEntry toy_k2; IBlank []].
+
+Lemma example_layout_ok : layout_ok example_layout = true /\
+  (forall e, In e (entries_of example_layout) -> lib_accepts toy_lib e) /\
+  entries_of example_layout = [toy_k1; toy_k2].
+Proof.
+  split; [vm_compute; reflexivity|]. split; [|reflexivity].
+  intros e [<-|[<-|[]]]; eexists; split; vm_compute; reflexivity.
+Qed.
+
+(* F15 on the pre-repair model *)
+Lemma authorized_keys_pre_refuted : exists lib its le trail,
+  layout_ok its = true /\ (forall e, In e (entries_of its) -> lib_accepts lib e) /\
+  (exists e, authorized_keys_pre lib (render its le trail) = Err e) /\
+  exists k, authorized_keys lib (render its le trail) = Ok (Info (bs "SSH authorized_keys") [] k) /\ length k = 2%nat.
+Proof.
+  exists toy_lib, [IEntry toy_k1; IEntry toy_k2], LF, 1%nat.
+  split; [vm_compute; reflexivity|]. split.
+  - intros e [<-|[<-|[]]]; eexists; split; vm_compute; reflexivity.
+  - split; [eexists; vm_compute; reflexivity|]. eexists. split; vm_compute; reflexivity.
+Qed.
+
+Lemma known_hosts_pre_refuted : exists lib its le trail,
+  layout_ok its = true /\ (forall e, In e (entries_of its) -> lib_accepts lib e) /\
+  (exists e, known_hosts_pre lib (render its le trail) = Err e) /\
+  exists k, known_hosts lib (render its le trail) = Ok (Info (bs "SSH known_hosts") [] k) /\ length k = 1%nat.
+Proof.
+  exists toy_lib, [IComment [] (bs " comment"); IEntry toy_k1], LF, 1%nat.
+  split; [vm_compute; reflexivity|]. split.
+  - intros e [<-|[]]; eexists; split; vm_compute; reflexivity.
+  - split; [eexists; vm_compute; reflexivity|]. eexists. split; vm_compute; reflexivity.
+Qed.
+
+(* keystores *)
+Lemma keystore_file_encode : forall secret cert_info enc_name desc magic version ebs mac,
+  magic_ok magic -> version < 4294967296 -> N.of_nat (length ebs) < 4294967296 -> length mac = 20%nat ->
+  forallb (fun eb => jentry_ok (fst eb)) ebs = true -> (forall eb, In eb ebs -> secret_ok secret eb) ->
+  (forall eb, In eb ebs -> certs_calm cert_info (je_certs (fst eb))) ->
+  jks_parse secret (jks_encode magic version ebs mac) = Ok (map fst ebs) /\
+  keystore_file cert_info enc_name true secret desc (jks_encode magic version ebs mac) =
+    Ok (Info desc [] (map (entry_child cert_info enc_name) (map fst ebs))).
+Proof.
+  intros secret cert_info enc_name desc magic version ebs mac Hm Hv Hn Hmac Hok Hsec Hcalm.
+  pose proof (jks_parse_encode secret magic version ebs mac Hm Hv Hn Hmac Hok Hsec) as Hp.
+  split; [exact Hp|]. unfold keystore_file. rewrite Hp.
+  rewrite jks_entries_total; [reflexivity|].
+  intros e He. apply in_map_iff in He as [eb [<- Heb]]. now apply Hcalm.
+Qed.
+
+(* the chain is complete and in order: one child per certificate, then the key *)
+Lemma entry_child_chain : forall cert_info enc_name e,
+  i_children (entry_child cert_info enc_name e) = map (cert_child cert_info) (je_certs e) ++ key_child enc_name e /\
+  length (map (cert_child cert_info) (je_certs e)) = length (je_certs e) /\
+  (forall c i, In c (je_certs e) -> is_x509 c = true -> cert_info (jc_bytes c) = Ok i -> cert_child cert_info c = i).
+Proof.
+  intros cert_info enc_name e. split; [reflexivity|]. split; [apply map_length|].
+  intros c i _ Hx Hi. unfold cert_child. now rewrite Hx, Hi.
+Qed.
+
+Lemma jks_chain_pre_refuted : exists cert_info cs,
+  certs_calm cert_info cs /\
+  exists k, cert_children cert_info false cs = Ok k /\ length k = 2%nat /\ length cs = 3%nat /\
+  exists k', cert_children cert_info true cs = Ok k' /\ length k' = 3%nat.
+Proof.
+  exists toy_cert_info, toy_chain. split.
+  - intros c [<-|[<-|[<-|[]]]] _; reflexivity.
+  - eexists. split; [vm_compute; reflexivity|]. split; [reflexivity|]. split; [reflexivity|].
+    eexists. split; [vm_compute; reflexivity|reflexivity].
+Qed.
+
+(* non-vacuity for the keystore codec: a store with a key entry (chain of two), a trusted
+   certificate, a secret key (toy sealed-object reader: blob = length :: content) and an entry of unknown type *)
+Definition toy_secret (off : N) (rest : bytes) : result (N * bytes * bytes) :=
+  match rest with
+  | k :: r => Ok (1 + k, bs "PBEWithMD5AndTripleDES", take (N.to_nat k) r)
+  | [] => Err "EOF"
+  end.
+Definition example_store : list (jentry * bytes) :=
+  [(mkjentry 1 (bs "mykey") 1702231124000 [48; 3; 1; 2; 3] [] [mkjcert (bs "X.509") [48; 1]; mkjcert (bs "X.509") [48; 2]], []);
+   (mkjentry 2 (bs "ca") 0 [] [] [mkjcert (bs "X.509") [48; 9; 9]], []);
+   (mkjentry 3 (bs "secret") 5 [7; 8] (bs "PBEWithMD5AndTripleDES") [], [2; 7; 8]);
+   (mkjentry 9 (bs "odd") 18446744073709551615 [] [] [], [])].
+
+Lemma example_store_ok :
+  forallb (fun eb => jentry_ok (fst eb)) example_store = true /\
+  (forall eb, In eb example_store -> secret_ok toy_secret eb) /\
+  jks_parse toy_secret (jks_encode jceks_magic 2 example_store (repeat 0 20)) = Ok (map fst example_store).
+Proof.
+  split; [vm_compute; reflexivity|]. split; [|vm_compute; reflexivity].
+  intros eb [<-|[<-|[<-|[<-|[]]]]]; unfold secret_ok; cbn [fst snd je_type]; try discriminate.
+  intros _ off rest. reflexivity.
+Qed.
+
+(* non-vacuity for the PEM hypotheses: a toy armor (marker, length-prefixed type and body) with its decoder *)
+Definition toy_enc (b : pblock) : bytes :=
+  pem_begin ++ N.of_nat (length (pb_type b)) :: pb_type b ++ N.of_nat (length (pb_bytes b)) :: pb_bytes b.
+Definition toy_dec (l : bytes) : option (pblock * bytes) :=
+  if prefix_of pem_begin l then
+    match drop (length pem_begin) l with
+    | n :: r =>
+        match drop (N.to_nat n) r with
+        | m :: r' => Some (mkpblock (take (N.to_nat n) r) (take (N.to_nat m) r'), drop (N.to_nat m) r')
+        | [] => None
+        end
+    | [] => None
+    end
+  else None.
+
+Lemma toy_pem_ok : (forall b, prefix_of pem_begin (toy_enc b) = true) /\
+  (forall b rest, toy_dec (toy_enc b ++ rest) = Some (b, rest)).
+Proof.
+  split; intros b; [apply prefix_of_app|]. intros rest. unfold toy_dec, toy_enc.
+  rewrite <- app_assoc, prefix_of_app, drop_app_length. cbn [app].
+  rewrite Nat2N.id. rewrite <- app_assoc. rewrite drop_app_length, take_app_length. cbn [app].
+  rewrite Nat2N.id, drop_app_length, take_app_length. now destruct b.
+Qed.
+
+Definition example_bundle : list (bytes * pblock) :=
+  [(bs "Bag Attributes" ++ [10], mkpblock (bs "CERTIFICATE") [48; 1]);
+   ([], mkpblock (bs "FOO") [1; 2]);
+   (bs "text - with - dashes -----BEGIN" ++ [10], mkpblock (bs "PGP MESSAGE") [3]);
+   ([10], mkpblock (bs "PRIVATE KEY") [48; 2])].
+Lemma example_bundle_ok : bundle_ok example_bundle (bs "trailing text" ++ [10]) = true /\ length (listed example_bundle) = 3%nat.
+Proof. split; vm_compute; reflexivity. Qed.
